@@ -32,7 +32,7 @@ impl Adapter for RateLimiterAd {
         let l = 1 + rng.below(if size == Size::Quick { 3 } else { 5 });
         let p = *rng.pick(&[3u64, 4, 5, 8]);
         let t = *rng.pick(&[0u64, 1, 2, p - 1, p, p + 1, 2 * p, 2 * p + 1, 4 * p]);
-        json!({"hm": rng.below(3), "win": win, "L": l, "P": p, "T": t})
+        json!({"hm": rng.below(4), "win": win, "L": l, "P": p, "T": t})
     }
     fn build(&mut self, cfg: &Value, sim: &mut Sim) {
         sim.w.lock().unwrap().auto = Some(GOut::Ok);
@@ -51,9 +51,7 @@ impl Adapter for RateLimiterAd {
     }
     fn mk(&mut self, req: &Req) -> CallFut {
         let f = self.svc.as_mut().unwrap().with(|s| {
-            let w = futures::task::noop_waker();
-            let mut cx = std::task::Context::from_waker(&w);
-            let _ = s.poll_ready(&mut cx);
+            ready_unless_parked(s);
             s.call(req.clone())
         });
         Box::pin(async move { map_res(f.await) })
